@@ -236,6 +236,10 @@ func CmdDel(cmdArgs *skel.CmdArgs, lastIdx int) error {
 	var fails []*NetworkInfo
 	for idx := lastIdx; idx >= 0; idx-- {
 		networkInfo := networkInfos[idx]
+		if networkInfo == nil {
+			// a damaged state file, nothing to delete for this entry
+			continue
+		}
 		//append additional args from network info
 		cmdArgs.Args = strings.TrimRight(fmt.Sprintf("%s;%s", cmdArgs.Args, BuildCNIArgs(networkInfo.Args)), ";")
 		err := DelegateDel(networkInfo.Conf, cmdArgs, networkInfo.IfName)
